@@ -36,6 +36,8 @@ func c47alphabet(thorough bool) []c47sym {
 		{Name: "fly", Raw: "fly-global-services:443", Trim: "fly-global-services:443", Host: "fly-global-services", Family: 4},
 		{Name: "host", Raw: "example.com:443", Trim: "example.com:443", Host: "example.com", Invalid: true},
 		{Name: "blank", Raw: "  \t", Trim: ""},
+		// IPv4-mapped IPv6 spelling: an IPv4 address (a v6 socket cannot bind it)
+		{Name: "mapped4", Raw: "[::ffff:10.0.0.7]:443", Trim: "[::ffff:10.0.0.7]:443", Host: "::ffff:10.0.0.7", Family: 4},
 		{Name: "padv4", Raw: "  127.0.0.1:443\t", Trim: "127.0.0.1:443", Host: "127.0.0.1", Family: 4},
 		// case variants and near-misses of the special host: not the documented Fly host, not an IP
 		{Name: "FLYupper", Raw: "FLY-GLOBAL-SERVICES:443", Trim: "FLY-GLOBAL-SERVICES:443", Host: "FLY-GLOBAL-SERVICES", Invalid: true},
